@@ -1,1 +1,3 @@
 import DracoProps.C17
+import DracoProps.C16
+import DracoProps.C07
